@@ -2,7 +2,7 @@
 from __future__ import annotations
 
 from harness.common import LINE_TERMINATORS, VERSIONS, Reject, Violation, run, stub_repr
-from harness.stepkit import BATTERY_TEXTS, World, build_registry
+from harness.stepkit import draw_id, BATTERY_TEXTS, World, build_registry
 from spec import step_model as M
 
 PROPERTY = "C19"
@@ -138,8 +138,8 @@ def sym_recv(inp, part):
     w1, w2 = _twin_worlds(inp, part)
     cross_major = old in ("1.4", "1.5") and new in ("2.0", "2.1", "2.2")
     lo, hi = part["idlo"], part["idhi"]
-    n = inp.int("n", lo, hi)
-    c = 255 if (hi < 255 and inp.bool("sys")) else inp.int("c", lo, hi)
+    n = draw_id(inp, "n", part, lo, hi)
+    c = 255 if (hi < 255 and inp.bool("sys")) else draw_id(inp, "c", part, lo, hi)
     marked = inp.bool("marked")
     parked = False if part.get("noparked") else inp.bool("parked")
     if cmd == 3:
@@ -214,9 +214,9 @@ def sym_send(inp, part):
     old, new = part["old"], part["new"]
     w1, w2 = _twin_worlds(inp, part)
     lo, hi = part["idlo"], part["idhi"]
-    n = inp.int("n", lo, hi)
+    n = draw_id(inp, "n", part, lo, hi)
     internal = inp.bool("internal")
-    c = 255 if internal else inp.int("c", lo, hi)
+    c = 255 if internal else draw_id(inp, "c", part, lo, hi)
     t = inp.int("t", 0, M.INTERNAL_MAX[old] if internal else part["tvhi"])
     p = inp.str("p", 1, exclude=LINE_TERMINATORS, no_trailing_ws=True)
     buffering = inp.bool("buffering")
